@@ -4,12 +4,16 @@ import (
 	"bytes"
 	"encoding/hex"
 	"fmt"
+	"io"
 	"reflect"
 	"strings"
 
 	protocol "github.com/hujm2023/go-sms-protocol"
+	"github.com/hujm2023/go-sms-protocol/cmpp"
+	"github.com/hujm2023/go-sms-protocol/smgp"
 
 	"verif/sim/core"
+	"verif/sim/simnet"
 	"verif/sim/spec"
 )
 
@@ -30,13 +34,13 @@ func init() {
 		Props: []string{"C01", "C02"},
 		Plan: func(prop, tier string) []Batch {
 			if tier == "thorough" {
-				bs := []Batch{{Mode: "seeded", Count: 4000000}}
+				bs := []Batch{{Mode: "seeded", Count: 4000000}, {Mode: "slot-sweep-wide", Count: slotSweepCount(true), Exhaustive: true}}
 				if prop == "C02" {
 					bs = append(bs, Batch{Mode: "count-sweep", Count: 4 * 256 * 256, Exhaustive: true})
 				}
 				return bs
 			}
-			bs := []Batch{{Mode: "seeded", Count: 60000}}
+			bs := []Batch{{Mode: "seeded", Count: 60000}, {Mode: "slot-sweep", Count: slotSweepCount(false), Exhaustive: true}}
 			if prop == "C02" {
 				// destination count 0..255 x body length on a coarse grid, all four submit types
 				bs = append(bs, Batch{Mode: "count-sweep-coarse", Count: 4 * 256 * 8, Exhaustive: true})
@@ -112,6 +116,10 @@ func runInterop(r *core.Run) {
 	sp := Spec()
 	if strings.HasPrefix(r.Cfg.Mode, "count-sweep") {
 		runCountSweep(r)
+		return
+	}
+	if strings.HasPrefix(r.Cfg.Mode, "slot-sweep") {
+		runSlotSweep(r)
 		return
 	}
 	proto := sp.Protos[c.Intn(len(sp.Protos))]
@@ -444,6 +452,71 @@ func interopLegB(r *core.Run, proto *spec.Proto, n int, opt spec.GenOpt) {
 		if hdrCmd != s.m.CmdID {
 			r.Fail("C02", "decode", site, "field=@cmd", "command id in image %#x, decoded header %#x", s.m.CmdID, hdrCmd)
 		}
+		if c.Prob(1, 3) {
+			headerViaReader(r, proto, s.b)
+		}
+	}
+}
+
+// headerViaReader: the header decoders that take an io.Reader get the image through a connection that delivers it in
+// seeded pieces (short reads, zero-length reads, the last octets together with EOF); the three header words must come out.
+func headerViaReader(r *core.Run, proto *spec.Proto, img []byte) {
+	c := r.C
+	_, wantCmd, wantSeq, ok := headerBits(proto, img)
+	if !ok {
+		return
+	}
+	mk := func() *simnet.SimConn {
+		conn := simnet.NewSimConn(simnet.Compact, 64, nil)
+		conn.Arrive(img)
+		conn.Fail(io.EOF)
+		conn.ShortRead = func(avail, want int) int { return 1 + c.Intn(min(avail, want)) }
+		zero := false
+		conn.ZeroRead = func() bool {
+			if !zero && c.Prob(1, 5) {
+				zero = true
+				return true
+			}
+			zero = false
+			return false
+		}
+		conn.DataErr = c.Bool()
+		return conn
+	}
+	var tl, cmd, seq uint32
+	var err error
+	name := ""
+	switch proto.Name {
+	case "cmpp20", "cmpp30":
+		name = "cmpp.NewHeaderFromReader"
+		if p := r.Call(name, func() {
+			var h cmpp.Header
+			h, err = cmpp.NewHeaderFromReader(mk())
+			tl, cmd, seq = h.TotalLength, uint32(h.CommandID), h.SequenceID
+		}); p != nil {
+			r.Fail("C02", "panic", name, p.Kind, "%s: %s", name, p.Value)
+			return
+		}
+	case "smgp30":
+		name = "smgp.NewHeaderFromReader"
+		if p := r.Call(name, func() {
+			var h smgp.Header
+			h, err = smgp.NewHeaderFromReader(mk())
+			tl, cmd, seq = h.TotalLength, uint32(h.CommandID), h.SequenceID
+		}); p != nil {
+			r.Fail("C02", "panic", name, p.Kind, "%s: %s", name, p.Value)
+			return
+		}
+	default:
+		return
+	}
+	r.Probe("header_via_chunked_reader")
+	if err != nil {
+		r.Fail("C02", "decode", name, "refused", "a complete header delivered in pieces was refused: %v", err)
+		return
+	}
+	if int(tl) != len(img) || cmd != wantCmd || seq != wantSeq[0] {
+		r.Fail("C02", "decode", name, "header-words", "header delivered in pieces decoded as length %d command %#x sequence %d; the image carries %d, %#x, %d", tl, cmd, seq, len(img), wantCmd, wantSeq[0])
 	}
 }
 
@@ -566,4 +639,135 @@ func runCountSweep(r *core.Run) {
 		return
 	}
 	checkLayout(r, sent{msg: m, pd: pd, bytes: b})
+}
+
+// ---- slot sweep: every octet value at every position of every text slot -----------------------------------------
+//
+// One run = one PDU type with all its text slots filled to their width, one choice of the octet in front (left as it
+// is, or a small integer / magic from sweepFront) and one body length; inside the run every position p of every text
+// slot takes every value 1..255 in turn. Each variant is encoded by the library (must equal the model image), and the
+// model image is decoded by the library (must give the values back). A decoder or encoder that treats some octet
+// value at some offset specially - a layout guess, a terminator other than NUL, a trim - cannot hide from this.
+
+var sweepFront = []int{-1, 0x01}
+var sweepFrontWide = []int{-1, 0x01, 0x02, 0x05, 0x06, 0x1b, 0x20, 0x30, 0x7f, 0x80, 0xff}
+var sweepBodies = []int{0, 100}
+var sweepBodiesWide = []int{0, 7, 100, 140, 231}
+
+func allPDUs() []*spec.PDU {
+	var out []*spec.PDU
+	for _, p := range Spec().Protos {
+		out = append(out, p.PDUs...)
+	}
+	return out
+}
+
+func slotSweepCount(wide bool) uint64 {
+	if wide {
+		return uint64(len(allPDUs()) * len(sweepFrontWide) * len(sweepBodiesWide))
+	}
+	return uint64(len(allPDUs()) * len(sweepFront) * len(sweepBodies))
+}
+
+func runSlotSweep(r *core.Run) {
+	prop := r.Cfg.Property
+	fronts, bodies := sweepFront, sweepBodies
+	if r.Cfg.Mode == "slot-sweep-wide" {
+		fronts, bodies = sweepFrontWide, sweepBodiesWide
+	}
+	pdus := allPDUs()
+	idx := int(r.Cfg.Index)
+	pd := pdus[idx%len(pdus)]
+	front := fronts[(idx/len(pdus))%len(fronts)]
+	body := bodies[(idx/(len(pdus)*len(fronts)))%len(bodies)]
+	site := pd.Site()
+	ch := core.NewSeedChooser(core.Mix(11, site, uint64(body)))
+	m := spec.Gen(ch, pd, spec.GenOpt{NoTail: true, BinNoNul: true, Shape: 2, MaxDests: 2, MaxBody32: 140, TextOnly: true})
+	for _, f := range pd.Fields {
+		if f.Kind == spec.KOctets {
+			m.F[f.Name].B = ch.Blob(body, "any")
+			m.V(f.Ref).U = uint64(body)
+		}
+	}
+	applyDocumentedNormalisation(m)
+	r.Event("slot sweep %s front=%d body=%d", site, front, body)
+	variants := 0
+	for _, f := range pd.Fields {
+		if f.Kind != spec.KStr && f.Kind != spec.KCStr {
+			continue
+		}
+		v := m.F[f.Name]
+		if len(v.B) < 2 || v.Raw != nil {
+			continue
+		}
+		for p := 1; p < len(v.B); p++ {
+			o0, o1 := v.B[p-1], v.B[p]
+			if front >= 0 {
+				v.B[p-1] = byte(front)
+			}
+			for x := 1; x <= 255; x++ {
+				v.B[p] = byte(x)
+				variants++
+				if !slotVariant(r, prop, m, pd, f.Name, p, x) {
+					return
+				}
+			}
+			v.B[p-1], v.B[p] = o0, o1
+		}
+	}
+	if variants > 0 {
+		r.Probe("slot_sweep_variants")
+	}
+}
+
+func slotVariant(r *core.Run, prop string, m *spec.Msg, pd *spec.PDU, field string, p, x int) bool {
+	site := pd.Site()
+	img, _ := spec.Build(m)
+	// library encodes: must be the model image
+	pdu := ToGo(m)
+	var b []byte
+	var err error
+	if pp := r.Call(site+".IEncode", func() { b, err = pdu.IEncode() }); pp != nil {
+		r.Fail(prop, "panic", pp.Frame, pp.Kind, "slot sweep: %s with octet %#x at position %d of %s: %s", site, x, p, field, pp.Value)
+		return false
+	}
+	if err != nil {
+		r.Fail(prop, "encode-error", site, "slot-sweep/field="+field, "octet %#x at position %d of %s (a NUL-free value that fits its slot) is refused: %v", x, p, field, err)
+		return false
+	}
+	if !bytes.Equal(b, img) {
+		what := "layout"
+		if prop == "C01" {
+			what = "roundtrip"
+		}
+		// C01 does not judge the layout; it decodes what the library produced
+		if prop == "C02" {
+			r.Fail(prop, what, site, "slot-sweep/field="+field, "octet %#x at position %d of %s: the library's image differs from the specification's", x, p, field)
+			return false
+		}
+		img = b
+	}
+	fresh := ctor[site]()
+	if pp := r.Call(site+".IDecode", func() { err = fresh.IDecode(img) }); pp != nil {
+		r.Fail(prop, "panic", pp.Frame, pp.Kind, "slot sweep: decoding %s with octet %#x at position %d of %s: %s", site, x, p, field, pp.Value)
+		return false
+	}
+	if err != nil {
+		r.Fail(prop, "decode", site, "slot-sweep/refused", "octet %#x at position %d of %s: a well-formed image is refused: %v", x, p, field, err)
+		return false
+	}
+	got := FromGo(fresh, pd, true)
+	got.CmdID = m.CmdID
+	for _, name := range spec.Diff(m, got) {
+		if f := pd.Field(name); f != nil && f.Kind == spec.KBin {
+			continue // fixed binary slots have their own findings (listed); this sweep is about text slots
+		}
+		kind := "roundtrip"
+		if prop == "C02" {
+			kind = "decode"
+		}
+		r.Fail(prop, kind, site, "slot-sweep/field="+name, "octet %#x at position %d of %s: field %s carries %s, decoded %s", x, p, field, name, spec.Canon(m)[name], spec.Canon(got)[name])
+		return false
+	}
+	return true
 }
